@@ -565,7 +565,16 @@ func init() {
 		r.viperFile = args[0].(string)
 		return nil
 	}, "github.com/spf13/viper.SetConfigFile")
+	writeConfig := func(r *Run, fr *frame, args []Value) Value { return nil }
 	reg(func(r *Run, fr *frame, args []Value) Value {
+		// the "safe" variant refuses to overwrite an existing file
+		name := args[0].(string)
+		if f := r.fs().get(name); f.exists {
+			return r.newError(fr, "Config File \""+name+"\" Already Exists")
+		}
+		return writeConfig(r, fr, args)
+	}, "github.com/spf13/viper.SafeWriteConfigAs")
+	writeConfig = func(r *Run, fr *frame, args []Value) Value {
 		// writes an opaque snapshot of the store: distinct content for every call
 		name := args[0].(string)
 		r.fsOp("writeconfig " + name)
@@ -581,7 +590,8 @@ func init() {
 			f.content = append(f.content, r.tt.Const(8, uint64(txt[i])))
 		}
 		return Iface{}
-	}, "github.com/spf13/viper.WriteConfigAs", "github.com/spf13/viper.WriteConfig")
+	}
+	reg(writeConfig, "github.com/spf13/viper.WriteConfigAs", "github.com/spf13/viper.WriteConfig")
 }
 
 // deepCopy copies aggregates and slices (restored configuration must not alias the saved one)
